@@ -17,6 +17,7 @@ from mc.explore import explore, Chooser
 from mc.seams import ScriptedRandom, MENU_QUICK, MENU_FULL
 from mc.oracles import padding as O
 from checks import _c09_hist as H
+from checks import _c09_exact as X
 
 PROP = "C09"
 LEVEL = "exploration"
@@ -41,7 +42,15 @@ RULE = (
     "{2,4}) x lens given/omitted (ChunkBySlices) x {no change, mode reassigned, value/padding_value reassigned, "
     "batch_first toggled, train/eval switched}, for every initial mode/layout; each call's rows reach the first "
     "and last frame and beyond and must equal the single-sequence oracle (RandomShift also the functional fed "
-    "the same scripted draws); results kept from earlier steps must stay unchanged and no argument may be modified."
+    "the same scripted draws); results kept from earlier steps must stay unchanged and no argument may be modified. "
+    "Exact units (checks/_c09_exact.py): per api x mode x dtype {float64, int64, float32} x 4 padding values chosen "
+    "so that a detour through another dtype shows (0.1, -1e300, 1/3, 2**24+1; 2**24+1, 2**53+1, 2**53-1 on int64; "
+    "0.5, -7.5, 2**24, 0.1 on float32) with contents k+0.3 / 2**60+k / k+0.25: every row configuration for T=2 as "
+    "one batch (ChunkBySlices also without lens; both layouts of pad_masked_sequence; RandomShift N=2,T=4 with "
+    "prop 2.0 constant / 1.0 otherwise), each evaluated as functional, module, module under "
+    "torch.set_default_dtype(float64), under torch.inference_mode(), with x.requires_grad_(True), as "
+    "torch.jit.script(module) and as torch.jit.trace(module, example of shape N=1) - all compared with == (no "
+    "tolerance) against the single-sequence oracle holding the exact constant, hence bit for bit with each other."
 )
 ASSUMPTIONS = [
     "small scope: N<=2 per call for pair interactions (plus one ragged batch of all configurations), T=4 (0..3, 6 "
@@ -55,10 +64,15 @@ ASSUMPTIONS = [
     "RandomShift rows are accepted if SOME (left,right) within the bounds explains the output (replicate/"
     "reflect padding can be ambiguous for short sequences)",
     "uniform draws only from the menu {0, 1/4, 3/4, 1-2^-24} (quick) / {0, 2^-24, 1e-6, 1/4, 1/2, 3/4, 1-2^-24}",
-    "exact comparison (contents are small integers; float32 and int64 only); TorchScript/CUDA not explored",
+    "exact comparison (contents are small integers; float32 and int64, float64 in the exact units); CUDA not "
+    "explored; TorchScript only in the exact units",
     "object histories: at most 3 calls per object, attributes reassigned only to other legal values (mode, value, "
     "padding_value, batch_first) and Module.train()/eval(); RandomShift histories use prop=1.0 and one fixed "
     "draw pattern per step; device changes and TorchScript-compiled modules are not part of the histories",
+    "exact units: the constant a tensor holds for a Python float value is the value itself (float64), the nearest "
+    "single (float32), int(value) (int64); scripted / traced modules are built once per unit and run on the unit's "
+    "batch only (not on the whole enumeration); a scripted or traced RandomShift draws from torch's own generator, "
+    "so there the draw is fixed by torch.manual_seed and judged by the any-bounded-shift oracle (not enumerated)",
 ]
 BUDGET_S = {"quick": 240, "thorough": 2400}
 
@@ -583,6 +597,8 @@ def shards(tier, seed):
                    "ch": {"constant": 6, "replicate": 6, "reflect": 2}}
         t1 = {"pv": {"constant": 1, "replicate": 1, "reflect": 1}, "ch": {"constant": 2, "replicate": 1, "reflect": 1}}
     # cheap parts first, so that a wall budget that runs out can never drop a whole API
+    for kind in ("pv", "ch", "pms", "rs"):
+        out.append({"pass": "exact", "kind": kind})
     for kind in H.KINDS:
         of = {"ChunkBySlices": 8, "PadVariable": 2, "PadMaskedSequence": 2, "RandomShift": 2}[kind] \
             if tier == "thorough" else 1
@@ -617,6 +633,8 @@ def run_shard(spec, tier, seed):
         rs_pass(ctx, spec["mode"], spec["props"], tier, seed)
     elif spec["pass"] == "pms":
         pms_pass(ctx, spec["N"], spec["T"], seed)
+    elif spec["pass"] == "exact":
+        X.exact_pass(ctx, spec["kind"], seed)
     elif spec["pass"] == "hist":
         H.hist_pass(ctx, spec["kind"], spec["init"], tier, seed, spec["i"], spec["of"])
     else:
@@ -662,6 +680,8 @@ def replay(case):
                  case["training"])
     elif part == "hist":
         H.replay(ctx, case)
+    elif part == "exact":
+        X.replay(ctx, case)
     elif part == "rs-ctor":
         ctx.case(1, 1)
         try:
